@@ -198,7 +198,17 @@ class C07Representations(Harness):
         return B.ExponentialBinning(log_min=x["lm"], log_width=x["lw"], bin_count=M)
 
     def drive(self, E, p, x):
-        return {"rep": _rep(E, self._make(E, p, x))}
+        # == against a copy in every cache state of the left / right operand (nothing read yet, only edges read, only pairs read)
+        eq = {}
+        for state in ("fresh", "edges_read", "pairs_read"):
+            b = self._make(E, p, x)
+            if state == "edges_read":
+                E.attempt(lambda: b.numpy_bins)
+            elif state == "pairs_read":
+                b.bins
+            c = b.copy()
+            eq[state] = [bool(b == c), bool(c == b), bool(b == self._make(E, p, x))]
+        return {"rep": _rep(E, self._make(E, p, x)), "eq_states": eq}
 
     def oracle(self, cx, p, x, obs):
         yield "no_exception", obs.get("raised") is None
@@ -207,6 +217,7 @@ class C07Representations(Harness):
         M, kind = p["M"], p["kind"]
         rep = obs["rep"]
         bins = rep["bins"]
+        yield "equal_to_its_copy_in_every_cache_state", all(all(v) for v in obs["eq_states"].values())
         yield "bin_count", rep["count"] == M == len(bins)
         if len(bins) != M:
             return
